@@ -221,6 +221,14 @@ def run(tier, seed):
         twin_sheets_law(chk, rng, b)
         if b == 0:
             falsy_overrides_law(chk, b)
+            forms = ['=OR(INDEX(A1:B3,0,1))', '=OR(IF(C1,A1:A3,B1:B3))', '=AND(INDEX(A1:B3,0,2))', '=AND(IF(C1,B1:B3,A1:A3),C1)', '=OR(A1:A3)', '=AND(B1:B3)', '=OR(INDEX(A1:B3,0,2))']
+            wants = ['F', 'F', 'F', 'F', 'F', 'F', 'T']
+            outs2 = realcode.eval_formulas(forms, {(0, 0): 0, (0, 1): 0, (0, 2): 0, (1, 0): 1, (1, 1): 0, (1, 2): 2, (2, 0): True}, min_fcol=4)
+            for f, o, w in zip(forms, outs2, wants):
+                chk.count('law:area-from-function')
+                if o != w:
+                    chk.violation({'why': 'AND / OR over an area delivered by INDEX / IF is not the conjunction / disjunction of its cells', 'formula': f, 'impl': o, 'want': w,
+                                   'stream': 'area-from-function'})
         if special:
             text_is_ignored_law(chk, rng, book, b)
         lo = realcode.eval_formulas(laws, values, extra_sheets=[(book.title1, book.data[1])], min_rows=per, min_fcol=book.w[0] + 2)
